@@ -319,6 +319,7 @@ func c01Run(w *fw.W, idx int) {
 	var forms []*sx.N
 	reKind := ""
 	fdKind := ""
+	rdKind := ""
 	if idx == 0 {
 		// a fixed program: the canonical instance of the let* shared-scope deviation
 		// (known finding), so that every run observes it whatever the seed
@@ -340,6 +341,12 @@ func c01Run(w *fw.W, idx int) {
 		// the truthiness-branching operators, effect probes in every lazy position
 		pname = "falsy-data"
 		forms, fdKind = g.FalsyProgram()
+	} else if idx%20 == 6 {
+		// values that do not evaluate to themselves (elements of quoted lists: unquoted
+		// forms and symbols) as data sent through one family of consumers; a value is
+		// never evaluated again, whatever route it takes
+		pname = "raw-data"
+		forms, rdKind = g.RawDataProgram()
 	} else {
 		forms = g.Program()
 	}
@@ -397,6 +404,10 @@ func c01Run(w *fw.W, idx int) {
 			if fdKind != "" {
 				w.Count("falsy_data_programs", 1)
 			}
+			if rdKind != "" {
+				w.Count("raw_data_programs", 1)
+				w.Count("raw_data_programs:"+rdKind, 1)
+			}
 			w.Count("steps_total", real.steps)
 			w.Count("probe_events", int64(len(real.trace)))
 			if m.err != nil {
@@ -442,6 +453,11 @@ func c01Run(w *fw.W, idx int) {
 	if fdKind != "" {
 		// by construction the program reads stored empty / falsy values through one accessor family
 		w.Violation("falsy-data:"+fdKind+":"+cls, diff, fmt.Sprintf("profile=%s accessor-family=%s\nsource:\n%s\nreal: %s\nmodel: val=%v err=%v site=%s", pname, fdKind, src, real.rendered, m.val, m.err, c01Site(m.err)))
+		return
+	}
+	if rdKind != "" {
+		// by construction the program sends values that do not evaluate to themselves through one consumer family
+		w.Violation("raw-data:"+rdKind+":"+cls, diff, fmt.Sprintf("profile=%s consumer-family=%s\nsource:\n%s\nreal: %s\nmodel: val=%v err=%v site=%s", pname, rdKind, src, real.rendered, m.val, m.err, c01Site(m.err)))
 		return
 	}
 	if pname == "builtin-sweep" {
